@@ -77,10 +77,16 @@ class ModelCloud:
         if out == "timeout":
             raise httpx.ReadTimeout("model cloud: no answer", request=request)
         if out == "http":
-            code = self.rng.choice([400, 404, 500, 503, 301, 302, 304, 307])
+            code = self.rng.choice([400, 404, 500, 503, 301, 302, 304, 307, "gzip"])
+            if code == "gzip":                # a 200 whose body does not match its Content-Encoding: an HTTP-level failure as well (httpx.DecodingError)
+                return httpx.Response(200, request=request, content=b"this is not gzip", headers={"content-encoding": "gzip"})
             return httpx.Response(code, request=request, text="error", headers={"location": "http://captive.portal/"} if code in (301, 302, 307) else None)
         if out == "api":
-            return httpx.Response(200, request=request, text=json.dumps({"errorCode": str(self.rng.choice([3101, 3102, 3106, 3004])), "msg": "model cloud api error"}))
+            code = self.rng.choice([3101, 3102, 3106, 3004, -1, -100, 1, 65535])
+            body = {"errorCode": self.rng.choice([str(code), code]), "msg": "model cloud api error"}
+            if self.rng.random() < 0.5:       # some error answers carry a (meaningless) result member all the same
+                body["result"] = self.rng.choice([None, {}, {"loginId": "0" * 24, "sessionId": "f" * 32, "tokenlist": []}])
+            return httpx.Response(200, request=request, text=json.dumps(body))
         if kind == "lid":
             self.login_id = self._fresh(24)
             self.login_ids[self.login_id] = self.account
